@@ -184,7 +184,21 @@ def nest_strategy():
                 elif c == 4 and depth < 5:
                     ps = draw(st.lists(st.sampled_from(POOL), max_size=2, unique=True))
                     fn = 'f%d' % depth
-                    out.append(ind + 'def %s(%s):' % (fn, ', '.join(ps)))
+                    # every parameter kind binds a local: positional-only, keyword-only, *args, **kwargs, with defaults
+                    style = draw(st.sampled_from(['plain', 'plain', 'posonly', 'kwonly', 'star', 'kwstar', 'default']))
+                    if not ps or style == 'plain':
+                        sig = ', '.join(ps)
+                    elif style == 'posonly':
+                        sig = ps[0] + ', /' + ''.join(', ' + q for q in ps[1:])
+                    elif style == 'kwonly':
+                        sig = '*, ' + ', '.join(ps)
+                    elif style == 'star':
+                        sig = ', '.join(ps[:-1] + ['*' + ps[-1]])
+                    elif style == 'kwstar':
+                        sig = ', '.join(ps[:-1] + ['**' + ps[-1]])
+                    else:
+                        sig = ', '.join('%s=%s' % (q, draw(st.sampled_from(POOL + ['0']))) for q in ps)
+                    out.append(ind + 'def %s(%s):' % (fn, sig))
                     fn_names = set(enclosing_fn_names)
                     if kind == 'function':
                         fn_names |= bound_here - declared
@@ -207,7 +221,8 @@ def nest_strategy():
                 elif c == 6:
                     p = draw(st.sampled_from(POOL))
                     q = draw(st.sampled_from(POOL))
-                    out.append(ind + 'l%d = lambda %s: (%s, %s, (lambda %s: %s + %s))' % (depth, p, p, q, q, p, draw(st.sampled_from(POOL))))
+                    lp = draw(st.sampled_from(['%s', '%s, /', '*, %s', '*%s', '**%s', '%s=0'])) % p
+                    out.append(ind + 'l%d = lambda %s: (%s, %s, (lambda %s: %s + %s))' % (depth, lp, p, q, q, p, draw(st.sampled_from(POOL))))
                 elif c == 7:
                     v = draw(st.sampled_from(POOL))
                     w = draw(st.sampled_from(POOL))
